@@ -31,18 +31,28 @@ MANIFEST = {
                   "stream, the braced rendering's canonical stream is a fixed point of the `;` rules, and the two agree "
                   "up to {~SetTab, ;~BackSet, }~BackTab (piled_canon, braced_canon, braced_equals_piled); appending any "
                   "white space to an indentation strictly increases its column under the TABSTOP rule "
-                  "(indent_prefix_mono). The model is tied to the current sources on every run: exact comparison (tags, "
+                  "(indent_prefix_mono). Scanner cursor (AV.Linear.Scan: inclCalcIndentLevel/inclLine, scStartLine, "
+                  "scAdvance0/scAdvance/scAdvance1, scSkipSpace, comments, doc comments, system-command lines, token "
+                  "positions; token recognition is an abstract maximal-munch oracle): include.c and scan.c compute the "
+                  "same tab-stop column for every white-space string (incl_indent_eq_scan_column); a rendered statement "
+                  "scans to its tokens whatever the blanks/tabs between them and across escaped line breaks with any "
+                  "trailing blanks, blank lines and continuation indentation (scan_logical_line, scan_spacing_insens, "
+                  "escape_join_insens). The model is tied to the current sources on every run: exact comparison (tags, "
                   "lines, columns, source token) of the extracted model with the real linearize() (compiler rebuilt from "
                   "the current tree, the call wrapped by the linker) on every rendering of generated programs and on a "
-                  "malformed token stream; the token table the model consults is regenerated from token.h/token.c; the "
+                  "malformed token stream; the extracted scanner model, fed the source lines include.c built and the "
+                  "real tokens' lengths, must reproduce start and end (line, column) of every token of every rendering, "
+                  "and inclLine the indentation/text of every physical line (wrap of scan()); the token table the model consults is regenerated from token.h/token.c; the "
                   "python renderer's canonical stream and side conditions are compared with the extracted Coq "
                   "grammar (canonPiled, canonBraced, wf_block) on every generated program.",
     "level_note": "Trusted/assumed: Coq kernel + extraction (ExtrOcamlBasic only); harness/c14/hook.c (dump of the token "
                   "lists); the LALR parser, macro expansion and abnormalisation are not modelled: that identical "
                   "linearised streams give identical -Fap, and that the parser-level equivalences (extra braces round a "
                   "single statement, a body on the header line) hold, is checked by the -Fap oracle on generated "
-                  "programs only (translation validation, not proof). Scanner: only validated (token boundaries and "
-                  "TABSTOP columns of first tokens against the renderer), not proved. linCheckBalance (diagnostics) and "
+                  "programs only (translation validation, not proof). Token recognition (what a word/number/string/"
+                  "operator is) is an abstract oracle: the scanner theorems assume the recogniser cuts each token "
+                  "text off in the float state the scanner is in (kept across escaped line breaks; a plain line break "
+                  "resets it, which is a newline token and not a layout-only edit). linCheckBalance (diagnostics) and "
                   "interactive mode are not modelled. lin_monotone_reindent requires the re-mapping to fix column 0 "
                   "(= sposNone; scanner columns start at 1).",
     "technique": "Coq proof of the lineariser model + correspondence (extracted OCaml vs the real linearize() of the "
@@ -74,7 +84,7 @@ class Tools:
         hobj = C.cc_objs([os.path.join(C.VERIF, "harness", "c14", "hook.c")], d + "/hobj", (C.GUARD,))
         os.makedirs(d + "/bin", exist_ok=True)
         self.exew = d + "/bin/aldor-wrapped"
-        rc, out, err = C.run(["gcc", "-o", self.exew] + objs + hobj + ["-lm", "-Wl,--wrap=linearize"], timeout=300)
+        rc, out, err = C.run(["gcc", "-o", self.exew] + objs + hobj + ["-lm", "-Wl,--wrap=linearize", "-Wl,--wrap=scan"], timeout=300)
         if rc != 0:
             raise C.BuildError("link of wrapped compiler failed:\n" + err[-2000:])
         ex = os.path.join(C.COQ, "Linear", "extracted")
@@ -118,9 +128,9 @@ class Tools:
             ap = open(d + "/p.ap", errors="replace").read()
         except OSError:
             pass
-        secs = parse_dump(d + "/p.dump") if dump else []
+        secs, scan = parse_dump(d + "/p.dump") if dump else ([], {})
         shutil.rmtree(d, ignore_errors=True)
-        return {"rc": rc, "msg": (out + err)[-1500:], "ap": ap, "secs": secs}
+        return {"rc": rc, "msg": (out + err)[-1500:], "ap": ap, "secs": secs, "scan": scan}
 
     def run_model(self, batches):
         """batches: list of token lists [(tag,line,col,text)] -> list of None | [(tag,id,line,col)]"""
@@ -170,24 +180,133 @@ class Tools:
 
 
 def parse_dump(path):
-    secs, cur = [], None
+    """-> (secs, scan): secs = [(IN|OUT, [(tag,line,col,text)])] (linearize), scan = {SLINES: [...], STOKS: [...]}
+    (raw fields of the scan() dump, see harness/c14/hook.c)."""
+    secs, cur, scan, mode = [], None, {}, None
     try:
         fh = open(path, errors="replace")
     except OSError:
-        return secs
+        return secs, scan
     for ln in fh:
         ln = ln.rstrip("\n")
         if ln in ("IN", "OUT"):
-            cur = []
+            cur, mode = [], "lin"
             secs.append((ln, cur))
             continue
+        if ln in ("SLINES", "STOKS"):
+            cur, mode = [], "scan"
+            scan[ln] = cur
+            continue
         parts = ln.split(" ")
-        if len(parts) != 4 or cur is None:
+        if cur is None:
+            continue
+        if mode == "scan":
+            cur.append(parts)
+            continue
+        if len(parts) != 4:
             continue
         txt = "" if parts[3] == "-" else bytes.fromhex(parts[3]).decode("latin-1")
         cur.append((int(parts[0]), int(parts[1]), int(parts[2]), txt))
     fh.close()
-    return secs
+    return secs, scan
+
+
+def _hexlen(h):
+    return 0 if h == "-" else len(h) // 2
+
+
+def _unhex(h):
+    return "" if h == "-" else bytes.fromhex(h).decode("latin-1")
+
+
+def scan_tie(T, jobs):
+    """Scanner / includer tie.  jobs: list of (scan dump, text of the main file or None).
+    The extracted model (AV.Linear.Scan) is given the source lines exactly as include.c built them and, for
+    the abstract token recogniser, the lengths and tags of the real tokens; it must reproduce every
+    token's start and end (line, column), every newline / comment / doc-comment / system-command token, and
+    every escaped-line-break joining.  include.c: the model's inclLine on each physical line of the main
+    file must give the indentation and text of the corresponding source line.
+    Returns one list of (kind, detail) per job."""
+    if T.model is None:
+        return [[] for _ in jobs]
+    own = {T.NL, T.COM, T.tag["TK_PreDoc"], T.tag["TK_PostDoc"], T.tag["TK_SysCmd"]}
+    inp, plan = [], []
+    for scan, text in jobs:
+        sl, tk = scan.get("SLINES"), scan.get("STOKS")
+        if sl is None or tk is None or any(int(t[0]) == T.tag["TK_Error"] for t in tk):
+            plan.append(None)
+            continue
+        words = ["L:%s:%s:%s:%s" % (x[3], x[4], x[5], x[6]) for x in sl]
+        for j, t in enumerate(tk):
+            tag = int(t[0])
+            if tag not in own:
+                # what the real token says about scFloatState: `.digits` read as a float: AnyFloat;
+                # a `.` with a digit directly behind it: not AnyFloat
+                req = ""
+                if tag == T.tag["TK_Float"] and _unhex(t[5]).startswith("."):
+                    req = ":A"
+                elif tag == T.tag["KW_Dot"] and j + 1 < len(tk) and (tk[j + 1][1], tk[j + 1][2]) == (t[3], t[4]) \
+                        and _unhex(tk[j + 1][5])[:1].isdigit():
+                    req = ":N"
+                words.append("O:%d:%d%s" % (_hexlen(t[5]) + (2 if tag == T.STRING else 0), tag, req))
+        inp.append("S " + " ".join(words))
+        nincl = []
+        if text is not None:
+            phys = text.split("\n")
+            lines = [l + "\n" for l in phys[:-1]] + ([phys[-1]] if phys[-1] else [])
+            for x in sl:
+                if x[2] == "1" and 1 <= int(x[1]) <= len(lines):
+                    nincl.append((x, lines[int(x[1]) - 1]))
+                    inp.append("N " + (lines[int(x[1]) - 1].encode("latin-1", "replace").hex() or "-"))
+        plan.append((sl, tk, nincl))
+    rc, out, err = C.run([T.model], input="\n".join(inp) + "\n", timeout=900)
+    outs = [l for l in out.split("\n") if l]
+    res, k = [], 0
+    for pl in plan:
+        if pl is None:
+            res.append([])
+            continue
+        sl, tk, nincl = pl
+        bad = []
+        if k >= len(outs) or not outs[k].startswith("OK"):
+            res.append([("scan-tie", "model driver gave no answer: %s" % err[-200:])])
+            k += 1 + len(nincl)
+            continue
+        w = outs[k].split(" ")[1:]
+        k += 1
+        left = bool(w) and w[-1] == "LEFT"
+        if left:
+            w = w[:-1]
+        if w and w[-1] == "FS":
+            w = w[:-1]
+            bad.append(("scan-tie", "scan.c vs model: the float state (scFloatState) differs: a `.digits` token was "
+                        "read as a float where the model is not in AnyFloat, or the other way round"))
+        gl = [int(x[0]) for x in sl]
+        fl = {int(x[0]): (int(x[1]), x[2] == "1") for x in sl}
+        got = []
+        for a in w:
+            g = [int(v) for v in a.split(":")]
+            got.append((g[0], gl[g[1]] if g[1] < len(gl) else -1, g[2], gl[g[3]] if g[3] < len(gl) else -1, g[4]))
+        exp = [(int(t[0]), int(t[1]), int(t[2]), int(t[3]), int(t[4])) for t in tk]
+        if got != exp or left:
+            i = next((j for j, (a, b) in enumerate(zip(got, exp)) if a != b), min(len(got), len(exp)))
+            e = exp[i] if i < len(exp) else None
+            where = ""
+            if e is not None:
+                f_line, ismain = fl.get(e[1], (0, False))
+                where = " at %s line %d, token %r" % ("the rendering's" if ismain else "an included file's", f_line,
+                                                      _unhex(tk[i][5]))
+            bad.append(("scan-tie", "scan.c vs model: token %d%s: model (tag,line,col,endline,endcol) %s, real %s"
+                        % (i, where, got[i] if i < len(got) else None, e)))
+        for x, physline in nincl:
+            o = outs[k].split(" ") if k < len(outs) else ["?", "?", "?"]
+            k += 1
+            if (o[0], o[1], o[2]) != (x[3], x[4], x[6]) and not any(b[0] == "incl-tie" for b in bad):
+                bad.append(("incl-tie", "include.c vs model: line %s %r: model (indentation %s, syscmd %s, text %r), "
+                            "real (indentation %s, syscmd %s, text %r)"
+                            % (x[1], physline, o[0], o[1], _unhex(o[2]), x[3], x[4], _unhex(x[6]))))
+        res.append(bad)
+    return res
 
 
 # ------------------------------------------------------------------ comparisons
@@ -250,11 +369,11 @@ class Prelude:
         self.out = out_texts(T, OUT)
 
 
-def check_rendering(T, P, prog, rr, res, m):
+def check_rendering(T, P, prog, rr, res, m, scanbad=()):
     """All per-rendering checks but the -Fap oracle.  Returns list of (kind, detail)."""
-    bad = []
     if len(res["secs"]) < 2:
         return [("nodump", "no linearize dump; rc=%s %s" % (res["rc"], res["msg"][-200:]))]
+    bad = list(scanbad)
     IN, OUT = res["secs"][0][1], res["secs"][1][1]
     ok, why = tie_ok(IN, OUT, m)
     if not ok:
@@ -269,12 +388,6 @@ def check_rendering(T, P, prog, rr, res, m):
     if got != want:
         k = next((i for i, (a, b) in enumerate(zip(got, want)) if a != b), min(len(got), len(want)))
         bad.append(("scan-tokens", "token %d: scanner %r, written %r" % (k, got[k:k + 3], want[k:k + 3])))
-    else:
-        for idx, col in rr["firsts"]:
-            if body[idx][2] != col + 1:
-                bad.append(("scan-column", "first token %r of a line: scanner column %d, TABSTOP rule %d"
-                            % (body[idx][3], body[idx][2], col + 1)))
-                break
     # lineariser result against the canonical stream of the abstract program
     if rr["token_equiv"]:
         can = [norm_tok(t) for t in R.canon(prog)]
@@ -413,6 +526,17 @@ def shrink_pair(T, prog, ref, rr, seed_tag, deadline):
     return prog, desc, a, b
 
 
+def model_ties(T, text):
+    """The model ties (include.c / scan.c / linear.c) on one text: list of 'kind: detail'."""
+    res = T.compile(text)
+    out = ["%s: %s" % b for b in scan_tie(T, [(res["scan"], text)])[0]]
+    if len(res["secs"]) >= 2:
+        ok, why = tie_ok(res["secs"][0][1], res["secs"][1][1], T.run_model([res["secs"][0][1]])[0])
+        if not ok:
+            out.append("tie: " + why)
+    return out
+
+
 def feature_key(mode, desc):
     on = sorted(k for k, off in FEATURES if k in desc and desc[k] != off and k != "width")
     return "%s:%s" % (mode, "+".join(on) if on else "plain")
@@ -441,6 +565,8 @@ def differential(rep, T, P, nprog, nrend, tag, stats, deadline, size_max=3, leve
         byjob[(pi, ri)] = res
     models = T.run_model([(res["secs"][0][1] if res["secs"] else []) for res in results])
     mby = {pr: m for pr, m in zip(flat, models)}
+    sres = scan_tie(T, [(res["scan"], jobs[pr[0]][2][pr[1]]["text"]) for pr, res in zip(flat, results)])
+    sby = {pr: b for pr, b in zip(flat, sres)}
     nviol = 0
     for pi, prog, rs in jobs:
         if time.time() > deadline:
@@ -476,7 +602,9 @@ def differential(rep, T, P, nprog, nrend, tag, stats, deadline, size_max=3, leve
                     stats["feature"][k] = stats["feature"].get(k, 0) + 1
             if res["secs"]:
                 stats["tie_tokens"] += len(res["secs"][0][1])
-            bad = check_rendering(T, P, prog, rr, res, mby[(pi, ri)])
+            if res["scan"].get("STOKS") is not None:
+                stats["scan_tokens"] += len(res["scan"]["STOKS"])
+            bad = check_rendering(T, P, prog, rr, res, mby[(pi, ri)], sby[(pi, ri)])
             if not bad:
                 stats["tie_ok"] += 1
             if res["ap"] != ref["ap"]:
@@ -491,7 +619,7 @@ def differential(rep, T, P, nprog, nrend, tag, stats, deadline, size_max=3, leve
                 if rep.violation("C14: two renderings of one program give different -Fap (%s)" % key,
                                  {"kind": "fap-diff", "a": sa["text"], "b": sb["text"], "desc_b": sd, "mode_b": rr["mode"],
                                   "ap_a": ra["ap"], "ap_b": rb["ap"], "msg_b": rb["msg"][-600:],
-                                  "other_checks": bad}, key=key):
+                                  "other_checks": bad, "model_ties_on_b": model_ties(T, sb["text"])}, key=key):
                     nviol += 1
                 if nviol >= 4:
                     return nviol
@@ -534,7 +662,8 @@ def escalate(rep, T, P, prog, rs, problems, tag, pi, deadline):
             key = feature_key(mode, sd)
             return 1 if rep.violation("C14: two renderings of one program give different -Fap (%s)" % key,
                                       {"kind": "fap-diff", "a": sa["text"], "b": sb["text"], "desc_b": sd, "mode_b": mode,
-                                       "ap_a": ra["ap"], "ap_b": rb2["ap"], "found_by": "searcher after %s" % (bad[0],)},
+                                       "ap_a": ra["ap"], "ap_b": rb2["ap"], "found_by": "searcher after %s" % (bad[0],),
+                                       "tie_problems": bad, "model_ties_on_b": model_ties(T, sb["text"])},
                                       key=key) else 0
     what = "; ".join("%s: %s" % b for b in bad[:3])
     return 1 if rep.violation("correspondence linear.c/scan.c vs model no longer checks (%s)" % what,
@@ -568,7 +697,16 @@ def soup(rep, T, n, tag, stats):
     with concurrent.futures.ThreadPoolExecutor(C.NCPU) as ex:
         results = list(ex.map(T.compile, texts))
     ms = T.run_model([(r["secs"][0][1] if r["secs"] else []) for r in results])
+    ss = scan_tie(T, [(r["scan"], t) for t, r in zip(texts, results)])
     nbad = 0
+    for text, r, sb in zip(texts, results, ss):
+        if sb and nbad < 2:
+            nbad += 1
+            rep.violation("correspondence include.c/scan.c vs model no longer checks on a malformed token stream (%s)"
+                          % "; ".join("%s: %s" % b for b in sb),
+                          {"kind": "tie-soup", "text": text, "why": sb}, no_input=True)
+        if r["scan"].get("STOKS") is not None and not sb:
+            stats["scan_soup"] += 1
     for text, r, m in zip(texts, results, ms):
         if len(r["secs"]) < 2:
             stats["soup_nodump"] += 1
@@ -607,11 +745,39 @@ def run_corpus(rep, T, stats):
     return n
 
 
+# ------------------------------------------------------------------ float state across an escaped line break
+
+FLOAT_STATE_PAIRS = [("y := x .5;\n", "y := x _\n .5;\n"),
+                     ("y := m.1.2;\n", "y := m.1 _  \n\n   .2;\n"),
+                     ("#pile\ny := f(x) .5\nz := 2 .5\n", "#pile\ny := f(x) _\n    .5\nz := 2  _ \n\n .5\n")]
+
+
+def regress_float_state(rep, T, stats):
+    """Regression (defect repaired in /repo by 230444b): an escaped line break must not reset scFloatState:
+    `x .5` is x . 5 on one line and must stay so when `_ newline` stands between x and .5.  Both the -Fap
+    oracle and the model ties (the extracted scanner keeps the float state across the escape) are applied."""
+    n = 0
+    for a, b in FLOAT_STATE_PAIRS:
+        stats["corpus"] += 1
+        df, ra, rb = differs(T, a, b)
+        ties = model_ties(T, a) + model_ties(T, b)
+        if df or ra["ap"] is None:
+            rep.violation("C14: escaping a line break changes -Fap (float state reset inside an escaped line break)",
+                          {"kind": "fap-diff", "a": a, "b": b, "ap_a": ra["ap"], "ap_b": rb["ap"],
+                           "msg_b": rb["msg"][-400:], "model_ties_on_b": ties}, key="regress:float-state-across-escape")
+            n += 1
+        elif ties:
+            rep.violation("correspondence scan.c vs model no longer checks (%s)" % "; ".join(ties)[:300],
+                          {"kind": "tie", "text": b, "problems": ties}, no_input=True)
+            n += 1
+    return n
+
+
 # ------------------------------------------------------------------ entry points
 
 def new_stats():
     return {"programs": 0, "renderings": 0, "tie_ok": 0, "tie_tokens": 0, "tokens": 0, "soup": 0, "soup_nodump": 0,
-            "corpus": 0, "canon_model": 0, "mode": {}, "tabs": {}, "spacing": {}, "feature": {}, "depth": {}}
+            "corpus": 0, "canon_model": 0, "scan_tokens": 0, "scan_soup": 0, "mode": {}, "tabs": {}, "spacing": {}, "feature": {}, "depth": {}}
 
 
 def run(rep, tier):
@@ -653,6 +819,7 @@ def run(rep, tier):
     budget = 75 if tier == "quick" else 1200
     deadline = t0 + budget + 40
     nv = run_corpus(rep, T, stats)
+    nv += regress_float_state(rep, T, stats)
     # indentation columns: model of inclCalcIndentLevel vs the renderer's TABSTOP rule
     rnd = C.rng("indent")
     inds = ["".join(rnd.choice(" \t") for _ in range(rnd.randint(0, 12))) for _ in range(200)]
@@ -680,6 +847,7 @@ def run(rep, tier):
         samples=[{"programs": stats["programs"], "renderings": stats["renderings"],
                   "tokens_through_tie": stats["tie_tokens"], "malformed_streams": stats["soup"],
                   "corpus_pairs": stats["corpus"],
+                  "tokens_through_scanner_tie": stats["scan_tokens"], "malformed_streams_through_scanner_tie": stats["scan_soup"],
                   "programs_whose_canon_and_wf_were_compared_with_the_Coq_grammar": stats["canon_model"]}],
         input_distribution={"mode": stats["mode"], "tabs": stats["tabs"], "spacing": stats["spacing"],
                             "features_on": stats["feature"], "block_depth": stats["depth"],
@@ -689,9 +857,13 @@ def run(rep, tier):
     rep.assume(
         "LALR parser / macro expansion / abnormalisation not modelled: 'equal linearised streams give equal -Fap' and the "
         "parser-level equivalences are checked by the -Fap oracle on generated programs only",
-        "scanner (scan.c) and include.c indentation are validated against the renderer (token boundaries, TABSTOP "
-        "columns of first tokens), not proved; the model takes the scanner's token list as input",
-        "harness/c14/hook.c (linker --wrap=linearize) reports the token lists faithfully",
+        "token recognition inside scan.c (scanWord/scanNumber/scanString/scanSpecial, keyLongest) is an abstract "
+        "maximal-munch oracle in the model; in the tie its answers are the real tokens' lengths and tags; handled "
+        "directives (#include, #if, #assert ...) are taken from the implementation's source-line list",
+        "scanner theorems: token texts contain no escape character and no newline, the recogniser cuts each text off "
+        "in the float state left by the previous token (same on both sides of an escaped line break), loops bounded by explicit fuel F "
+        "(hypothesis gapSize/length < F; scan uses F = characters + 2)",
+        "harness/c14/hook.c (linker --wrap=linearize, --wrap=scan) reports the source lines and token lists faithfully",
         "extraction: ExtrOcamlBasic only; driver.ml converts int <-> N and nothing else",
         "layout-only edits EXCLUDED because they legitimately change the token stream: `++`/`+++` doc comments (kept as "
         "tokens and attached to declarations); a `--` comment between an escaping `_` and its line end or a comment-only line "
@@ -717,6 +889,9 @@ def replay(path):
         print("C14 replay: -Fap of the two renderings %s" % ("DIFFER" if df else "are identical"))
         if df:
             print("--- a.ap\n%s\n--- b.ap\n%s\n%s" % ((ra["ap"] or "<none>")[:600], (rb["ap"] or "<none>")[:600], rb["msg"][-400:]))
+        for which in ("a", "b"):
+            for ln in model_ties(T, r[which]):
+                print("C14 replay: model tie on rendering %s: %s" % (which, ln))
         return 1 if df else 0
     if kind in ("tie", "tie-soup"):
         res = T.compile(r["text"])
@@ -726,7 +901,9 @@ def replay(path):
         m = T.run_model([res["secs"][0][1]])[0]
         ok, why = tie_ok(res["secs"][0][1], res["secs"][1][1], m)
         print("C14 replay: model vs real linearize(): %s %s" % ("equal" if ok else "DIFFER", why))
-        return 0 if ok else 1
+        sb = scan_tie(T, [(res["scan"], r["text"])])[0]
+        print("C14 replay: model vs real include.c/scan.c: %s" % ("equal" if not sb else "DIFFER " + "; ".join("%s: %s" % b for b in sb)))
+        return 0 if (ok and not sb) else 1
     if kind == "reference-rejected":
         res = T.compile(r["text"], dump=False)
         print("C14 replay: rc=%s ap=%s" % (res["rc"], "written" if res["ap"] else "missing"))
